@@ -1,2 +1,43 @@
-(* theorems land in the next commit *)
-From JS Require Import Model.JsonScan.
+(* C12 - JSON document scanner (formats/json).  Model: Model/JsonScan.v.  Spec: Spec/JsonGrammar.v (RFC 8259).
+   Full statement of the property:   jcheck false s = Ok  <->  JText s   (and the trailing variant).
+   Proved here: the "only if" direction for every byte string and both option values (nothing outside the
+   grammar is accepted), totality (no panic, no internal error code, every error positioned inside the text).
+   NOT yet a theorem: the "if" direction (every RFC 8259 text is accepted) - C12_accepts_partial below states what
+   is proved of it; the rest is covered by the correspondence (model = implementation on all short token strings)
+   plus the independent decoder used as oracle. *)
+From Coq Require Import List ZArith NArith Bool.
+From JS Require Import Base.Res Base.Lex Spec.JsonGrammar Model.JsonScan Proofs.JsonClasses Proofs.JsonSound Proofs.JsonMain.
+Import ListNotations.
+Local Open Scope Z_scope.
+
+Theorem C12_sound : forall s i, all_bytes s -> jcheck false s = (Ok tt, i) -> JText s.
+Proof. exact check_sound. Qed.
+Print Assumptions C12_sound.
+
+Theorem C12_trailing_sound : forall s i, all_bytes s -> jcheck true s = (Ok tt, i) ->
+  exists w v rest, s = w ++ v ++ rest /\ ws w /\ JValue v.
+Proof. exact check_trailing_sound. Qed.
+Print Assumptions C12_trailing_sound.
+
+(* for every byte string and both option values: lexemes, or error 301/303 at an index inside the text;
+   never a panic, never an internal-failure code (1, 305, 306) *)
+Theorem C12_total : forall al s, all_bytes s ->
+  match jlexemes al s with
+  | (Ok _, _) => True
+  | (Err e, i) => (e = 301%N \/ e = 303%N) /\ 0 <= i < Z.of_nat (length s)
+  | (Panic _, _) => False
+  end.
+Proof. exact lexemes_total. Qed.
+Print Assumptions C12_total.
+
+(* the invariant behind both: every reachable configuration is described by an abstract state whose
+   residual language is closed under the step (one lemma per state and byte class) *)
+Theorem C12_step : forall al a c b, byte b -> abs al a c -> step_ok al a c b.
+Proof. exact step_sound. Qed.
+Print Assumptions C12_step.
+
+(* partial: acceptance of concrete RFC 8259 texts (computation); the general "if" direction is open *)
+Example C12_accepts_partial :
+  fst (jcheck false [32; 123; 34; 97; 34; 58; 91; 49; 44; 45; 48; 46; 53; 101; 43; 50; 44; 110; 117; 108; 108; 93; 125; 10]%N) = Ok tt
+  /\ fst (jcheck false [49; 46]%N) = Err 303 /\ fst (jcheck true [49; 50; 120]%N) = Ok tt.
+Proof. vm_compute. auto. Qed.
